@@ -3,6 +3,8 @@ import Gql.Proofs.Assemble
 import Gql.Proofs.Filtered
 import Gql.Proofs.Cut
 import Gql.Proofs.Order
+import Gql.Proofs.Collect
+import Gql.Proofs.Bridge
 /-!
 # C04 — Incremental delivery reassembles to the non-incremental response
 
@@ -377,5 +379,85 @@ example :
     let c : Cut := .obj [([97], leaf 0)] [[([98], .arr [inner] [[inner]])], [([99], leaf 9)]]
     c.wf = true ∧ c.pieces.length = 11 ∧ c.reassembles = true := by
   decide
+
+/-! ## 4. Collecting fields with live `@defer` -/
+
+open Gql.Async.Collect in
+/-- C04-4 `collect_defer_same_keys`.  For every selection set of a document without fragment cycles
+(given unfolded: `Consistent`, `Acyclic`), whatever `@skip`/`@include`/type conditions evaluate to:
+`collect_fields` with live `@defer` (tri-state visited-fragment map) yields the same response keys
+and, per key, the same set of field nodes as `collect_fields` on the same selections with every
+`@defer` disabled.  Entries may be duplicated (a fragment visited as deferred is visited again by a
+non-deferred spread); nothing is lost and nothing is invented. -/
+theorem collect_defer_same_keys (table : Nat → List Sel) (base base' : Nat) (sels : List Sel)
+    (hc : Consistent table sels) (ha : Acyclic sels) :
+    (∀ k, k ∈ (collectFields base sels).grouped.map Prod.fst ↔
+          k ∈ (collectFields base' (stripSels sels)).grouped.map Prod.fst) ∧
+    (∀ k n, Has (collectFields base sels).grouped k n ↔
+            Has (collectFields base' (stripSels sels)).grouped k n) := by
+  refine ⟨?_, collect_same table base base' sels hc ha⟩
+  intro k
+  rw [mem_keys_iff_has (collectFields_good base sels), mem_keys_iff_has (collectFields_good base' _)]
+  constructor
+  · rintro ⟨n, h⟩; exact ⟨n, (collect_same table base base' sels hc ha k n).mp h⟩
+  · rintro ⟨n, h⟩; exact ⟨n, (collect_same table base base' sels hc ha k n).mpr h⟩
+
+open Gql.Async.Collect in
+/-- C04-4b `collect_exactly_unfolded_fields`.  Both are in fact the same fixed set: the included
+field nodes of the fully unfolded selection tree (`allFields`), each under its response key. -/
+theorem collect_exactly_unfolded_fields (table : Nat → List Sel) (base : Nat) (sels : List Sel)
+    (hc : Consistent table sels) (ha : Acyclic sels) (k n : Nat) :
+    Has (collectFields base sels).grouped k n ↔ (k, n) ∈ allFields sels :=
+  collect_spec table base sels hc ha k n
+
+open Gql.Async.Collect in
+/-- C04-4c `collect_subfields_defer_same_keys`.  The same for `collect_subfields`: the selection
+sets of all field nodes of one field-details list, each collected under the defer usage of its
+field details with one shared visited map. -/
+theorem collect_subfields_defer_same_keys (table : Nat → List Sel) (base base' : Nat)
+    (parts : List (Option Nat × List Sel)) (h : ∀ p ∈ parts, Consistent table p.2 ∧ Acyclic p.2)
+    (k n : Nat) :
+    Has (collectSubfields base parts).grouped k n ↔
+      Has (collectSubfields base' (stripParts parts)).grouped k n :=
+  collectSub_same table base base' parts h k n
+
+-- Non-vacuity: fragment 0 = { k1: node 11 } spread deferred (label 5), then non-deferred (visited
+-- again: node 11 is duplicated), then deferred again (skipped).
+open Gql.Async.Collect in
+example :
+    let body : List Sel := [.field 1 11 true]
+    let sels : List Sel :=
+      [.spread true true 0 (some (some 5)) body, .field 0 10 true,
+       .spread true true 0 none body, .spread true true 0 (some none) body]
+    Consistent (fun _ => body) sels ∧ Acyclic sels ∧
+    (collectFields 100 sels).grouped = [(1, [⟨11, some 100⟩, ⟨11, none⟩]), (0, [⟨10, none⟩])] ∧
+    (collectFields 100 sels).newUsages = [(some 5, none)] ∧
+    (collectFields 100 (stripSels sels)).grouped = [(1, [⟨11, none⟩]), (0, [⟨10, none⟩])] := by
+  refine ⟨⟨⟨rfl, trivial, trivial⟩, trivial, ⟨rfl, trivial, trivial⟩, ⟨rfl, trivial, trivial⟩, trivial⟩,
+    ⟨⟨by decide, trivial, trivial⟩, trivial, ⟨by decide, trivial, trivial⟩, ⟨by decide, trivial, trivial⟩, trivial⟩,
+    by decide, by decide, by decide⟩
+
+/-! ## 5. From the collected fields through the plan to the cut -/
+
+open Gql.Async.Collect in
+/-- C04-5 `collect_plan_cut`.  The bridge between `plan_partition` and `assemble_eq_reference`, for
+one object: collect its selection set with live defer usages, split the grouped field set with
+`build_execution_plan`, and read the result as a cut (`cutOfPlan`: the planned part is delivered
+with the enclosing piece, every new grouped field set by one deferred piece; `sub k` stands for
+the cut of the value of key `k`).  Then the cut is well formed, its pieces reassemble exactly to
+its reference object, and that object has exactly the response keys of the *non-incremental*
+collection of the same selection set, each exactly once.  (The recursion into the values
+`sub k` — i.e. the executor itself — is not modelled; see LEVEL_NOTE.) -/
+theorem collect_plan_cut (table : Nat → List Sel) (base base' : Nat) (sels : List Sel)
+    (hc : Consistent table sels) (ha : Acyclic sels)
+    (parentOf : Nat → Option Nat) (fuel : Nat) (parent : DeferUsageSet)
+    (sub : Nat → Cut) (hsub : ∀ k, (sub k).wf = true) :
+    let plan := buildExecutionPlan parentOf fuel (toPlan (collectFields base sels).grouped) parent
+    let c := cutOfPlan sub plan
+    c.wf = true ∧ foldPieces c.initial c.pieces = .ok c.ref ∧
+    ∃ kvs, c.ref = .obj kvs ∧ (kvs.map Prod.fst).Nodup ∧
+      ∀ k, keyOf k ∈ kvs.map Prod.fst ↔
+        k ∈ (collectFields base' (stripSels sels)).grouped.map Prod.fst :=
+  Gql.Async.collect_plan_cut table base base' sels hc ha parentOf fuel parent sub hsub
 
 end Gql.Props.C04
